@@ -27,7 +27,8 @@ const NN = -99 // model value of a non-numeric resource version
 
 // model key -> (namespace, name)
 var keyNS = map[string][2]string{
-	"a": {"ns1", "a"}, "b": {"ns2", "b"}, "c": {"ns1", "c"}, "d": {"ns3", "d"},
+	// d is cluster-scoped (empty namespace) and shares its name with a: keys are namespace AND name
+	"a": {"ns1", "a"}, "b": {"ns2", "b"}, "c": {"ns1", "c"}, "d": {"", "a"},
 	"e": {"ns2", "e"}, "f": {"ns3", "f"},
 }
 var nsKey = func() map[[2]string]string {
